@@ -37,7 +37,7 @@ LEVEL_TEXT = ("Every generated module is visited by the real visitor under a pas
 LEVEL_NOTE = ("trusted: CPython ast (spans, parse), the reference model (~200 lines, from the statement), the generator's "
               "renderer only through CPython's parse of its output; domain restrictions listed in DESIGN C01")
 TECHNIQUE = "runtime monitoring: reference-model monitor over CPython ast + extension-event trace checker + totality monitor"
-REQUIRED_COUNTERS = ["modules_visited", "scopes_compared", "members_compared", "spans_compared", "slices_reparsed", "labels_compared",
+REQUIRED_COUNTERS = ["loader_sources_compared", "modules_visited", "scopes_compared", "members_compared", "spans_compared", "slices_reparsed", "labels_compared",
                      "docstrings_compared", "visibility_rows_compared", "traces_checked", "events_recorded",
                      "totality_files_visited", "conditional_reassignments_seen", "displaced_duplicates_seen",
                      "modules_loaded_through_loader"]
@@ -543,6 +543,23 @@ def judge_module(rec, src: str, nontrivial_hint: bool | None = None, model: bool
                     rec.fail(case, "member names differ between visit() and a load() of the same source",
                              observed=sorted(set(lmod.members) ^ set(mod.members)), nontrivial=nontrivial)
                     return
+                # slicing the source by the reported span, the way a user does it (`obj.source` reads the loader's lines
+                # collection): Python's lines end at "\n" only (the file is read with universal newlines), whatever other
+                # characters str.splitlines() treats as boundaries (form feed, U+2028, ...) the text holds
+                pylines = src.split("\n")
+                todo = list(lmod.members.values())
+                while todo:
+                    o = todo.pop()
+                    if o.is_alias or o.lineno is None or o.endlineno is None:
+                        continue
+                    rec.count("loader_sources_compared")
+                    want = pylines[o.lineno - 1:o.endlineno]
+                    if o.lines != want or o.source != textwrap.dedent("\n".join(want)):
+                        rec.fail(case, f"{o.path}: obj.lines / obj.source is not the text of lines {o.lineno}-{o.endlineno} of the file",
+                                 observed=o.source[:300], expected="\n".join(want)[:300], nontrivial=nontrivial)
+                        return
+                    if o.is_class or o.is_module:
+                        todo.extend(o.members.values())
             if not model:
                 mod.as_json()
                 rec.ok(case, nontrivial=nontrivial, tags=("totality",))
@@ -566,7 +583,7 @@ def judge_module(rec, src: str, nontrivial_hint: bool | None = None, model: bool
                 isinstance(n, (ast.If, ast.Try, ast.For, ast.While, ast.With)) for n in ast.walk(tree))
             mdoc = docstring_of(tree.body)
             gdoc = (mod.docstring.value, mod.docstring.lineno, mod.docstring.endlineno) if mod.docstring else None
-            res = ("module docstring", gdoc, mdoc) if gdoc != mdoc else compare_scope(rec, mod, rscope, src.splitlines(), src)
+            res = ("module docstring", gdoc, mdoc) if gdoc != mdoc else compare_scope(rec, mod, rscope, src.split("\n"), src)
     except Exception as exc:  # noqa: BLE001
         rec.fail_exc(case, f"{type(exc).__name__} while visiting a valid module", exc, nontrivial=nontrivial)
         return
